@@ -297,20 +297,22 @@ func (c *updater) buildBackendAuthHTTP(d *backData) {
 			secretName = authSecret.Source.Namespace + "/" + secretName
 		}
 		listName := strings.Replace(secretName, "/", "_", 1)
+		// always read the secret, even if its userlist was already created by another
+		// resource: reading is what validates the permission to use it from this namespace
+		userb, err := c.cache.GetPasswdSecretContent(
+			authSecret.Source.Namespace,
+			authSecret.Value,
+			[]convtypes.TrackingRef{
+				{Context: convtypes.ResourceHABackend, UniqueName: d.backend.ID},
+				{Context: convtypes.ResourceHAUserlist, UniqueName: listName},
+			},
+		)
+		if err != nil {
+			c.logger.Error("error reading basic authentication on %v: %v", authSecret.Source, err)
+			continue
+		}
 		userlist := c.haproxy.Userlists().Find(listName)
 		if userlist == nil {
-			userb, err := c.cache.GetPasswdSecretContent(
-				authSecret.Source.Namespace,
-				authSecret.Value,
-				[]convtypes.TrackingRef{
-					{Context: convtypes.ResourceHABackend, UniqueName: d.backend.ID},
-					{Context: convtypes.ResourceHAUserlist, UniqueName: listName},
-				},
-			)
-			if err != nil {
-				c.logger.Error("error reading basic authentication on %v: %v", authSecret.Source, err)
-				continue
-			}
 			userstr := string(userb)
 			users, errs := extractUserlist(authSecret.Source.Name, secretName, userstr)
 			for _, err := range errs {
